@@ -276,7 +276,7 @@ def run(ctx):
     # ---- corpus
     paths = G.corpus_scripts()
     if quick:
-        paths = ctx.rng.sample(paths, 400)
+        paths = ctx.rng.sample(paths, 250)
     n_parse = n_ok = n_assign = 0
     for p in paths:
         try:
@@ -301,7 +301,7 @@ def run(ctx):
     # ---- null-position and reserved-word templates (structural part only)
     words = sorted(w for w in reserved if re.match(r"^[a-z_]+$", w))
     if quick:
-        words = ctx.rng.sample(words, 12)
+        words = ctx.rng.sample(words, 6)
     n_t = 0
     for s_ in list(P24.NULL_TEMPLATES) + [t.replace("{w}", w) for w in words for t in P24.RESERVED_TEMPLATES]:
         r = check_structure(s_, reserved)
@@ -314,7 +314,7 @@ def run(ctx):
             add(k, w, {"script": s_, "kind": "template"})
     ctx.cov["template_scripts"] = n_t
     # ---- directed + generated, with run equivalence
-    n_gen = 40 if quick else 1200
+    n_gen = 25 if quick else 1200
     directed = directed_cases()
     n_run = n_run_ok = 0
     hist: Dict[str, int] = {}
@@ -347,7 +347,7 @@ def run(ctx):
     ctx.cov["runs_equal"] = n_run_ok
     ctx.cov["generated_template_histogram"] = hist
     # ---- test-suite scripts with data
-    n_suite = 15 if quick else 300
+    n_suite = 8 if quick else 300
     sp = G.corpus_scripts()
     ctx.rng.shuffle(sp)
     done = eq = 0
